@@ -211,6 +211,64 @@ theorem pivot_cell (t : Table) (x : List String) (y z : String) (agg : Agg) (zs 
   exact pivotCell_spec t.nrows x.length (xCells t x) (yCell t y) zs agg hn
     (by intro i; simp [xCells]) gx p.2 hgx
 
+/-- every row of the table is addressed: its x key has a row group and its y value a label group -/
+theorem pivot_row_addressed (t : Table) (x : List String) (y : String) (hn : t.nrows ≠ 0)
+    (i : Nat) (hi : i < t.nrows) :
+    let xyg := listbyG (xyKeys t.nrows (xCells t x) (yCell t y))
+    (∃ gx ∈ listbyG (xyg.map fun g => xPart x.length g.1), cmp (.tuple (xCells t x i)) gx.1 = .eq) ∧
+    (∃ gy ∈ listbyG ((xyg.map fun g => tupleGet x.length g.1).map fun v => .tuple [v]),
+      cmp (.tuple [yCell t y i]) gy.1 = .eq) :=
+  pivot_addresses t.nrows x.length (xCells t x) (yCell t y) hn (by intro i; simp [xCells]) i hi
+
+/-- **unpivot ∘ pivot, cell level** (`_partial`): when the `(x, y)` pairs of the rows are unique and
+duplicates are aggregated with `last`, the pivot cell addressed by a row's x key and y value holds
+exactly that row's z, and a cell addressed by no row is `None` — so the non-`None` cells that
+`unpivot` lists (`unpivot_rows`: one row per (pivot row, label)) are in one-to-one correspondence
+with the rows of the table (`pivot_row_addressed`, `listby_distinct`).  What is not proved is the
+single multiset equation between `unpivot(pivot(d))` minus its `None` rows and `d`. -/
+theorem unpivot_pivot_cells_partial (n nx : Nat) (xp : Nat → List Val) (yc : Nat → Val)
+    (zs : List Cell) (hn : n ≠ 0) (hxp : ∀ i, (xp i).length = nx) (gx gy : Grp)
+    (hgx : gx ∈ listbyG ((listbyG (xyKeys n xp yc)).map fun g => xPart nx g.1))
+    (huniq : ∀ i j, i < n → j < n → cmp (.tuple (xp i)) (.tuple (xp j)) = .eq →
+      cmp (.tuple [yc i]) (.tuple [yc j]) = .eq → i = j) :
+    (∀ i, i < n → cmp (.tuple (xp i)) gx.1 = .eq → cmp (.tuple [yc i]) gy.1 = .eq →
+      pivotCell (listbyG (xyKeys n xp yc)) nx zs .last gx.2 gy.1 = .cell (zs.getD i .none)) ∧
+    ((¬ ∃ i, i < n ∧ cmp (.tuple (xp i)) gx.1 = .eq ∧ cmp (.tuple [yc i]) gy.1 = .eq) →
+      pivotCell (listbyG (xyKeys n xp yc)) nx zs .last gx.2 gy.1 = .cell .none) := by
+  have hs := pivotCell_spec n nx xp yc zs .last hn hxp gx gy hgx
+  simp only at hs
+  rw [hs]
+  constructor
+  · intro i hi hix hiy
+    have himem : i ∈ (List.range n).filter fun i =>
+        cmp (.tuple (xp i)) gx.1 == .eq && cmp (.tuple [yc i]) gy.1 == .eq := by
+      simp [List.mem_filter, hi, hix, hiy]
+    have hne : ((List.range n).filter fun i =>
+        cmp (.tuple (xp i)) gx.1 == .eq && cmp (.tuple [yc i]) gy.1 == .eq) ≠ [] :=
+      List.ne_nil_of_mem himem
+    rw [if_neg hne]
+    simp only [Agg.apply, List.getLastD_eq_getLast?, List.getLast?_map]
+    obtain ⟨j, hj⟩ : ∃ j, ((List.range n).filter fun i =>
+        cmp (.tuple (xp i)) gx.1 == .eq && cmp (.tuple [yc i]) gy.1 == .eq).getLast? = some j := by
+      cases h : ((List.range n).filter fun i =>
+        cmp (.tuple (xp i)) gx.1 == .eq && cmp (.tuple [yc i]) gy.1 == .eq).getLast? with
+      | none => exact absurd (List.getLast?_eq_none_iff.1 h) hne
+      | some j => exact ⟨j, rfl⟩
+    have hjm := List.mem_of_getLast? hj
+    simp only [List.mem_filter, List.mem_range, Bool.and_eq_true, beq_iff_eq] at hjm
+    have : j = i := huniq j i hjm.1 hi (cmp_eq_trans hjm.2.1 (cmp_eq_symm hix))
+      (cmp_eq_trans hjm.2.2 (cmp_eq_symm hiy))
+    subst this
+    simp [hj]
+  · intro hno
+    have : ((List.range n).filter fun i =>
+        cmp (.tuple (xp i)) gx.1 == .eq && cmp (.tuple [yc i]) gy.1 == .eq) = [] := by
+      rw [List.eq_nil_iff_forall_not_mem]
+      intro i hi
+      simp only [List.mem_filter, List.mem_range, Bool.and_eq_true, beq_iff_eq] at hi
+      exact hno ⟨i, hi.1, hi.2.1, hi.2.2⟩
+    rw [if_pos this]
+
 /-- **unpivot**: every row of the pivot table gives one row per label column: the x cells, the
 label (as a string) and the cell; rows in row-major order -/
 theorem unpivot_rows (p : VTable) (x : List String) (y z : String)
